@@ -2557,6 +2557,16 @@ def located_param(fn, ty_pat, _depth=0):
     return res
 
 
+def param_value(fn, i):
+    """The value expression of parameter i of fn: ("param", path, i), or the field of the parameter struct for a synthetic
+    index (Program.bundle_layout)."""
+    if isinstance(i, int) and not isinstance(i, VParam) and fn.body is not None and i >= fn.body.arg_count and CURRENT_P[0] is not None:
+        for (i_, k_, nm_, t_) in CURRENT_P[0].bundle_layout(fn):
+            if i_ == i:
+                return proj(("param", fn.path, k_), ("f", nm_))
+    return ("param", fn.path, int(i) if i is not None else i)
+
+
 def param_root(fn, i, path=""):
     if isinstance(i, VParam):
         return vparam_root(fn, i, path)
